@@ -433,7 +433,7 @@ func (r *checkRun) finish(partial bool) int {
 			"paths":  rep.Paths, "paths_completed": rep.PathsDone, "paths_assumption_false": rep.PathsAssume, "paths_cut_by_bound": rep.PathsCut,
 			"inconclusive_paths": rep.PathsUnsup, "inconclusive_reasons": rep.UnsupReasons, "cut_reasons": rep.CutReasons,
 			"states": rep.States, "transitions": rep.Transitions, "obligations": rep.Obligations, "discharged": rep.Discharged,
-			"queries":         map[string]int{"total": rep.Solver.Queries, "sat": rep.Solver.Sat, "unsat": rep.Solver.Unsat, "unknown": rep.Solver.Unknown, "errors": rep.Solver.Errors, "fallbacks": rep.Solver.Fallbacks},
+			"queries":         map[string]int{"total": rep.Solver.Queries, "sat": rep.Solver.Sat, "unsat": rep.Solver.Unsat, "unknown": rep.Solver.Unknown, "errors": rep.Solver.Errors, "fallbacks": rep.Solver.Fallbacks, "cross_checked": rep.Solver.CrossChecked, "cross_disagreements": rep.Solver.CrossDisagree},
 			"solver_backends": rep.Solver.ByBackend, "solver_time_s": round2(rep.Solver.Time.Seconds()), "wall_s": round2(rep.Wall.Seconds()),
 			"instructions_executed": rep.Steps, "reach_labels": rep.Reach, "vacuous_labels": u.vacuous,
 			"native_validation": u.natives, "replay_mode": replayMode(u.spec), "init_failures": rep.InitFailures,
